@@ -38,7 +38,7 @@ impl Property for C14 {
     }
     fn rule(&self) -> String {
         "bytes: for every wire type (24 types x binary/JSON) of every suite a valid encoding taken from a real run is mutated by a generated \
-         script (bit flips, byte sets, truncation, extension, splicing with an encoding of another type or another suite, count/length \
+         script (bit flips, byte sets, truncation, extension, long strings with multi-byte characters at chosen byte offsets in JSON string members, splicing with an encoding of another type or another suite, count/length \
          inflation) and decoded; messages: for each of 22 protocol entry points that consume peer material a generated mutation script \
          (drop, swap, re-key, other-session/other-run entries, attacker-chosen well-typed values incl. identity elements and zero scalars, \
          empty and oversized maps, commitments of length 0/1/t-1/t+1/300 - and, as separate cases, 65536..65539 entries for dkg::part2, \
@@ -101,7 +101,7 @@ impl Property for C14 {
             (0u8..2, proptest::collection::vec(any::<u8>(), 0..160)).prop_map(move |(world, bytes)| Case::Script { entry, world, bytes }).boxed()
         } else {
             let sel = stratum as u8;
-            (proptest::collection::vec((0u8..8, any::<u16>(), any::<u8>()), 0..6), any::<u8>(), 0u8..6, any::<u64>())
+            (proptest::collection::vec((0u8..10, any::<u16>(), any::<u8>()), 0..6), any::<u8>(), 0u8..6, any::<u64>())
                 .prop_map(move |(ops, splice_sel, splice_suite, seed)| Case::Bytes { sel, ops, splice_sel, splice_suite, seed })
                 .boxed()
         }
@@ -114,6 +114,7 @@ impl Property for C14 {
         v.push(("op:splice".into(), m));
         v.push(("op:truncate".into(), m));
         v.push(("op:inflate".into(), m));
+        v.push(("op:string-stuffing".into(), m));
         v.push(("corpus-replay".into(), 100));
         v.push(("huge-commitment:part2".into(), 6));
         v.push(("huge-commitment:from_commitment".into(), 3));
@@ -222,6 +223,23 @@ pub fn mutate<C: Worlds>(sel: u8, ops: &[(u8, u16, u8)], splice_sel: u8, splice_
                         b.drain(p..p + l);
                     }
                     labels.push("op:dup-or-delete-chunk");
+                }
+            }
+            8 => {
+                // JSON-aware: replace the content of one string literal by a long string with a multi-byte character
+                // at a chosen byte offset (string handling that cuts or indexes at fixed byte positions)
+                let quotes: Vec<usize> = b.iter().enumerate().filter(|(_, c)| **c == b'"').map(|(i, _)| i).collect();
+                if quotes.len() >= 2 {
+                    let k = idx(*pos, quotes.len() / 2);
+                    let (q0, q1) = (quotes[2 * k], quotes[2 * k + 1]);
+                    let ascii = 40 + (*val as usize % 40);
+                    let wide = ["\u{e9}", "\u{20ac}", "\u{1f600}"][(*pos as usize) % 3];
+                    let tail = (*pos as usize >> 3) % 5;
+                    let mut st = "A".repeat(ascii);
+                    st.push_str(wide);
+                    st.push_str(&"b".repeat(tail));
+                    b.splice(q0 + 1..q1, st.into_bytes());
+                    labels.push("op:string-stuffing");
                 }
             }
             _ => {
